@@ -324,9 +324,17 @@ impl BuiltInFunction {
                     unreachable!()
                 };
 
-                let removed = v.0.borrow_mut().remove((*i).try_into().with_context(|| {
+                let index: usize = (*i).try_into().with_context(|| {
                     format!("vector index `{i}` could not fit in an int (i32)")
-                })?);
+                })?;
+
+                let mut view = v.0.borrow_mut();
+
+                if index >= view.len() {
+                    bail!("removal index {index} out of bounds (len {})", view.len())
+                }
+
+                let removed = view.remove(index);
 
                 Ok((Some(removed), None))
             }
